@@ -117,7 +117,7 @@ def c02(r):
     # P2P ingress (store polling cursors): repaired design for IH = 1 and IH > 1; both deviations must fail
     r.tlc_exhaustive("StorePoll.tla", "StorePoll.cfg", workers=2)
     r.tlc_exhaustive("StorePoll.tla", "StorePoll_ih1.cfg", workers=2)
-    for cfg in ("StorePoll_follow.cfg", "StorePoll_noretry.cfg"):
+    for cfg in ("StorePoll_follow.cfg", "StorePoll_noretry.cfg", "StorePoll_restarttop.cfg"):
         ok, _ = r.tlc_exhaustive("StorePoll.tla", cfg, workers=2, expect_ok=False)
         if ok:
             raise Inconclusive(cfg + " should reproduce the P2P cursor defect")
